@@ -185,12 +185,26 @@ def strat_ms(tier):
                                      "kgap": gen.logu(0.5, 1e3)}),
         "tight": st.booleans(), "radial": st.booleans(), "meth": st.sampled_from([0, 1]),
         "wrap": st.booleans(),
+        # size parameter at (or within a few ulp of) a zero of a Riccati-Bessel function psi_0..psi_3: "nice" user
+        # numbers land there (r=0.4, n_m=1.33, wavelength 0.532 is x = 2 pi exactly)
+        "x_zero": st.one_of(st.none(), st.none(), st.tuples(st.sampled_from(_PSI_ZEROS), st.sampled_from([0.0, 0.0, 2e-16, -2e-16, 1e-12, -1e-9]), st.sampled_from(["x", "x", "mx"])).map(list)),
     })
+
+
+_PSI_ZEROS = [math.pi, 2 * math.pi, 3 * math.pi, 4 * math.pi, 5 * math.pi, 4.493409457909064, 7.725251836937707, 10.904121659428899,
+              14.066193912831473, 5.763459196894550, 9.095011330476355, 12.322940970566582, 6.987932000500519, 10.417118547379365]
 
 
 def run_ms(case):
     from holopy.scattering import calc_field, calc_scat_matrix, Mie, Multisphere, Spheres
     o, s = case["o"], case["s"]
+    xz = case.get("x_zero")
+    if xz is not None:
+        if len(xz) > 2 and xz[2] == "mx":
+            # the argument inside the sphere, m x, at the zero (real index)
+            s = dict(s, m=[s["m"][0], 0.0], x=xz[0] * (1.0 + xz[1]) / s["m"][0])
+        else:
+            s = dict(s, x=xz[0] * (1.0 + xz[1]))
     if s["m"][1] * s["x"] > 30:
         s = dict(s); s["m"] = [s["m"][0], round(30.0 / s["x"], 7)]
     k = gen.wavevec(o)
@@ -205,6 +219,8 @@ def run_ms(case):
     scat = Spheres([sph]) if case["wrap"] else sph
     labels = [size_class(s["x"]), "tight" if case["tight"] else "default_opts", "radial" if case["radial"] else "noradial",
               "meth%d" % case["meth"], "absorbing" if s["m"][1] else "real"]
+    if xz is not None:
+        labels.append("x_at_zero_of_psi")
     a = calc_field(det, scat, theory=ms, **gen.optics_kwargs(o))
     b = calc_field(det, sph, theory=mie, **gen.optics_kwargs(o))
     _, av = gen.flatten(a)
